@@ -1,4 +1,5 @@
-import RxnModel.Proofs.CompactionWriteRun
+import RxnModel.Proofs.CompactionSys
+import RxnModel.Proofs.LsmOrder
 /-!
 The compactor inside the DKV transition system of C07 (`Lsm.step`): every change set the modelled picker produces
 passes the guard `Lsm.safeCS` of the `.compact` action — also when flushes and foreground writes happen between
@@ -483,6 +484,15 @@ theorem dinv_step {d d' : DB} {m : Spec} {a : DAct} (hi : DInv d m) (hok : d.act
         rw [hshape']
         rw [hL] at hc
         exact hc.sublist (List.Sublist.append (List.filter_sublist.map _) (List.Sublist.refl _))
+  | compactFail o =>
+    simp only [DB.step] at h
+    split at h
+    · cases h
+    · split at h
+      · simp only [Option.some.injEq] at h
+        subst h
+        exact ⟨hi.inv, hi.rinv, hi.ids, hi.len, hi.chron, fun cs hcs => hi.pend cs hcs⟩
+      · cases h
 
 theorem db_run_inv : ∀ (as : List DAct) (d : DB) (m : Spec) (d' : DB) (m' : Spec),
     DInv d m → d.runOK as → d.run m as = some (d', m') → DInv d' m' := by
@@ -673,6 +683,26 @@ theorem view_without_compactions (as : List Lsm.Act) (s : Lsm.State) (m : Spec)
     have h2 := scan_spec hi0 p
     exact sorted_mem_ext h1.1 h2.1 (fun e => by rw [h1.2 e, h2.2 e])
 
+/-- the same for the reads **as the code performs them** (`Model/LsmCode.lean`, `Model/Rescale.lean`: `tablesForKey`
+with `SearchUnique` over `RangeKeyCompare`; `AllTablesForPrefix` with the level-0 filter, `BinarySearchFunc` over
+`RangePrefixCompare` and the forward walk): erasing the compaction commits changes neither `getR` nor `scanR` -/
+theorem view_without_compactions_code (as : List Lsm.Act) (s : Lsm.State) (m : Spec)
+    (h : runBoth {} [] as = some (s, m)) :
+    ∃ s0, runBoth {} [] (dropCompactions as) = some (s0, m) ∧
+      (∀ k, Rescale.getR s k = Rescale.getR s0 k) ∧ (∀ p, Rescale.scanR s p = Rescale.scanR s0 p) := by
+  obtain ⟨s0, h0, _⟩ := runBoth_erase as {} {} [] s m ⟨rfl, rfl, rfl, rfl⟩ h
+  have hi := runBoth_inv_ordered as {} [] s m inv_init readInv_init deepOrdered_init h
+  have hi0 := runBoth_inv_ordered _ {} [] s0 m inv_init readInv_init deepOrdered_init h0
+  refine ⟨s0, h0, ?_, ?_⟩
+  · intro k
+    rw [getR_eq_get hi.1 hi.2.2, getR_eq_get hi0.1 hi0.2.2, get_eq_firstHit hi.1, get_eq_firstHit hi0.1,
+      hi.1.hit k, hi0.1.hit k]
+  · intro p
+    rw [scanR_eq_scan2R, scanR_eq_scan2R]
+    have h1 := scan2R_spec hi.1 hi.1 hi.2.2 (fun r hr => Or.inl hr) p
+    have h2 := scan2R_spec hi0.1 hi0.1 hi0.2.2 (fun r hr => Or.inl hr) p
+    exact run_sorted_ext h1.1 h2.1 (fun e => by rw [h1.2 e, h2.2 e])
+
 /-- every history of the DKV system with the compaction task is a history of the DKV system (`Lsm.runBoth`) whose
 compaction commits are those of the task -/
 theorem db_run_lsm : ∀ (as : List DAct) (d : DB) (m : Spec) (d' : DB) (m' : Spec),
@@ -733,5 +763,14 @@ theorem db_run_lsm : ∀ (as : List DAct) (d : DB) (m : Spec) (d' : DB) (m' : Sp
             · simp only [runBoth, hx]; exact hr
             · simp [dropCompactions, List.filter_cons, isCompact, foreground] at hd ⊢
               exact hd
+      | compactFail o =>
+        simp only [DB.step] at hst
+        split at hst
+        · cases hst
+        · split at hst
+          · simp only [Option.some.injEq] at hst
+            subst hst
+            exact ⟨acts, hr, by simpa [foreground] using hd⟩
+          · cases hst
 
 end Rxn.Compaction
